@@ -414,7 +414,7 @@ class GeneralSurrogate:
             d = np.power(output[:,n*n:],3)
             return np.squeeze(d)
         else:
-            return self.therm.getInterdiffusivity(x, T, phase=phase, *args, **kwargs)
+            return self.therm.getTracerDiffusivity(x, T, phase=phase, *args, **kwargs)
 
     def _collectSurrogateData(self):
         '''
